@@ -1,5 +1,5 @@
 """Generic check flow for line-protocol suites: prove -> correspond -> monitor -> decide -> evidence."""
-import glob, json, os, time
+import glob, json, os, shutil, time
 from verif import *
 
 
@@ -128,9 +128,19 @@ def correspond(ctx, spec, suite, stats):
     ncorpus = with_corpus(ctx, suite, ops_p)
     stats["corpus_cases"] = stats.get("corpus_cases", 0) + ncorpus
     t = time.time()
-    rc, out = harness(ctx, name, "run", ["-ops", ops_p, "-out", impl_p, "-stats", ctx.path(name + ".rstats")], timeout=suite.get("timeout", 3000))
-    if rc != 0:
+    race = bool(suite.get("race_in_thorough")) and ctx.tier == "thorough"
+    if race:
+        rok, rout = build_harness(ctx, race=True)
+        if not rok:
+            raise RuntimeError("race-enabled harness does not build: " + rout[-1000:])
+    rc, out = harness(ctx, name, "run", ["-ops", ops_p, "-out", impl_p, "-stats", ctx.path(name + ".rstats")],
+                      timeout=suite.get("timeout", 3000), race=race, env={"GORACE": "halt_on_error=0 exitcode=66"})
+    race_report = None
+    if "DATA RACE" in out:
+        race_report = out[out.index("WARNING: DATA RACE"):][:6000]
+    elif rc != 0:
         raise RuntimeError("harness run failed (rc=%d): %s" % (rc, out[-2000:]))
+    stats["race_detector"] = 1 if race else stats.get("race_detector", 0)
     for k, v in load_stats(ctx.path(name + ".rstats")).items():
         stats[k] = stats.get(k, 0) + v
     ops = read_lines(ops_p)
@@ -140,7 +150,7 @@ def correspond(ctx, spec, suite, stats):
     vimpl, vmodel = views(suite, impl, model)
     outs = [impl] + ([model] if model else []) + ([mon] if mon else []) + ([vimpl, vmodel] if model else [])
     cases = split_cases(ops, *outs)
-    res = {"cases": len(cases), "disagreements": [], "rejects": [], "nontrivial": set(), "samples": [], "panics": []}
+    res = {"cases": len(cases), "disagreements": [], "rejects": [], "nontrivial": set(), "samples": [], "panics": [], "race": race_report}
     for c in cases:
         ci = c["outs"][0]
         idx = 1
@@ -201,6 +211,11 @@ def run_property(spec, tier, seed, replay=None):
             ctx.say("suite %s: %d cases, %d disagreements, %d monitor rejections, %d panics" % (
                 suite["name"], res["cases"], len(res["disagreements"]), len(res["rejects"]), len(res["panics"])))
             kp = suite.get("keep_prefix", 2)
+            if res.get("race"):
+                property_failures += 1
+                report_finding(ctx, "%s:%s:data-race" % (pid, suite["name"]), "Go race detector reports a data race",
+                               {"kind": "input", "suite": suite["name"], "race_report": res["race"],
+                                "how_to_replay": "./check %s --tier thorough (race-enabled harness)" % pid})
             # property failures observed on the implementation (monitor rejections), grouped by finding key
             seen_keys = {}
             for r in res["rejects"]:
@@ -285,6 +300,8 @@ def run_property(spec, tier, seed, replay=None):
     write_evidence(ctx, level, cov, spec.get("assumptions", []))
     rc = finish(ctx)
     ctx.say("== %s done rc=%d wall=%.1fs" % (pid, rc, time.time() - ctx.t0))
+    if rc == 0 and not os.environ.get("VERIF_KEEP_WORK"):
+        shutil.rmtree(ctx.work, ignore_errors=True)   # scratch files are only kept for failing runs
     return rc
 
 
